@@ -560,6 +560,11 @@ epoll_dispatch(struct event_base *base, struct timeval *tv)
 
 		if (what & EPOLLERR) {
 			ev = EV_READ | EV_WRITE;
+			/* A reset connection is also a closed one: without this
+			 * an event that waits for EV_CLOSED alone is never told
+			 * (the poll backend does report it). */
+			if (what & EPOLLRDHUP)
+				ev |= EV_CLOSED;
 		} else if ((what & EPOLLHUP) && !(what & EPOLLRDHUP)) {
 			ev = EV_READ | EV_WRITE;
 		} else {
